@@ -173,10 +173,47 @@ pub fn run_all(run: &mut Run, rng: &mut Rng, thorough: bool) {
             }
         }
     }
+    // ---- TURN over TCP: `TurnClient::send` frames every message with a 2-byte length (RFC 4571)
+    tcp_framing(run, rng, &env, thorough);
     // ---- Allocate dialogue (401 challenge, then success) against a scripted reference-crate server
     for _ in 0..(if thorough { 300 } else { 40 }) { allocate_dialogue(run, rng, &env); }
     // ---- receive side: handle_turn_packet
     rx_cases(run, rng, &env, thorough);
+}
+
+fn tcp_framing(run: &mut Run, rng: &mut Rng, env: &Env, thorough: bool) {
+    use tokio::io::AsyncReadExt;
+    let (client, mut server_side) = env.rt.block_on(async {
+        let l = tokio::net::TcpListener::bind("127.0.0.1:0").await.unwrap();
+        let c = tokio::net::TcpStream::connect(l.local_addr().unwrap()).await.unwrap();
+        let (s, _) = l.accept().await.unwrap();
+        (TurnClient::verif_new_tcp(c), s)
+    });
+    for _ in 0..(if thorough { 2000 } else { 200 }) {
+        let dl = *rng.pick(&[0usize, 1, 3, 4, 100, 763, 1400]);
+        let data = rng.bytes(dl);
+        let ch = rng.range(0x4000, 0x7fff) as u16;
+        let peer = gen_addr(rng);
+        let use_chan = rng.chance(1, 2);
+        let framed = env.rt.block_on(async {
+            if use_chan { client.verif_send_channel_data(ch, &data).await.unwrap(); } else { client.verif_send_indication(peer, &data).await.unwrap(); }
+            let mut len = [0u8; 2];
+            tokio::time::timeout(Duration::from_secs(2), server_side.read_exact(&mut len)).await.ok()?.ok()?;
+            let mut b = vec![0u8; u16::from_be_bytes(len) as usize];
+            tokio::time::timeout(Duration::from_secs(2), server_side.read_exact(&mut b)).await.ok()?.ok()?;
+            let mut f = len.to_vec(); f.extend_from_slice(&b); Some(f)
+        });
+        let Some(framed) = framed else { run.count("tcp_read_timeout"); continue };
+        run.case("tcpframe", &hex(&framed[2..]), &hex(&framed), true);
+        if use_chan {
+            let mut want = vec![(ch >> 8) as u8, ch as u8, (data.len() >> 8) as u8, data.len() as u8]; want.extend_from_slice(&data);
+            if framed[2..] != want[..] { run.fail("codec:turn:channel-data:tcp-frame", &format!("tcpframe {}", hex(&framed[2..])), &hex(&framed)); }
+        } else {
+            let tx: [u8; 12] = framed[10..22].try_into().unwrap();
+            let case = case_req(run, "sendind", &tx, None, Some(peer), 0, &data, &framed[2..]);
+            oracle_request(run, &case, "send-indication-tcp", &framed[2..], &tx, METHOD_SEND, CLASS_INDICATION, None, Some(peer), &[(ATTR_DATA, data.clone())]);
+        }
+    }
 }
 
 fn server_reply(tx: [u8; 12], method: Method, class: MessageClass, attrs: &[(AttrType, Vec<u8>)], relayed: Option<SocketAddr>, key: Option<Vec<u8>>) -> Vec<u8> {
@@ -238,6 +275,7 @@ fn allocate_dialogue(run: &mut Run, rng: &mut Rng, env: &Env) {
             if env.client.verif_auth_key() != Some(cr.key()) { run.fail("codec:turn:allocate:stored-key", &c1, ""); }
             run.count("allocate_dialogue_ok");
         }
+        Err(e) if e.to_string().contains("elapsed") || e.to_string().contains("timed out") => run.count("allocate_dialogue_timeout_under_load"),
         Err(e) => run.fail("codec:turn:allocate:dialogue-failed", &c1, &e.to_string()),
     }
 }
